@@ -15,7 +15,7 @@ Definition S2 (c : bool) (L : option (option pct)) (A : option (list app)) (i : 
 (* actions that never change the monitor state, whatever it is *)
 Definition quiet (a : action) : Prop :=
   match a with
-  | AClock _ | AStore _ _ | AReply _ _ | ATimer (WUntil _) => True
+  | AClock _ | AStore _ _ | AReply _ _ | ARequest _ _ | ATimer (WUntil _) => True
   | AEvent (EvState s) => match s with CheckingForUpdates _ => False | _ => True end
   | AEvent (EvProtocol _) | AEvent (EvProgress _) | AEvent EvInstallerError => True
   | APolicy (QCanStart _) _ | APolicy (QRebootAllowed _) _ | APolicy (QRebootNeeded _) _ => True
@@ -23,7 +23,7 @@ Definition quiet (a : action) : Prop :=
   end.
 Lemma step2_quiet q a : quiet a -> step2 q a = Some q.
 Proof.
-  intro H. destruct a as [ev|pq ans|w o|c ans|c|w|op ok|mt|id r]; try contradiction; try reflexivity.
+  intro H. destruct a as [ev|pq ans|w o|c ans|c|w|op ok|mt|id src|id r]; try contradiction; try reflexivity.
   - destruct ev as [s| | | | | |]; try contradiction; try reflexivity. destruct s; try contradiction; reflexivity.
   - destruct pq; try contradiction; reflexivity.
   - destruct w; try contradiction; reflexivity.
@@ -32,6 +32,12 @@ Lemma nM_quiet a : quiet a -> nM (emit a).
 Proof. intro H. apply neutralM_emit. intros q _. apply step2_quiet. exact H. Qed.
 Lemma ign_store2 : ign_store step2 Inv2. Proof. intros op ok q _. reflexivity. Qed.
 Lemma ign_clock2 : ign_clock step2 Inv2. Proof. intros c q _. reflexivity. Qed.
+Lemma ign_ctl2 : ign_ctl step2.
+Proof. split; intros; reflexivity. Qed.
+Ltac temit := first [apply triple_emit | apply (T_yield step2 _ _ _ ign_ctl2) | (unfold yield_state; apply (T_yield step2 _ _ _ ign_ctl2))].
+Lemma nM_yieldq ev : quiet (AEvent ev) -> nM (yield_ ev).
+Proof. intro H. apply neutralM_yield; [apply ign_ctl2|]. intros q _. apply step2_quiet. exact H. Qed.
+
 Lemma An {A} (P : q2 -> Prop) (m : M A) : nM m -> T P m (fun _ => P).
 Proof. intro H. apply (H P). intros q _. exact I. Qed.
 Lemma nM_now : nM now. Proof. apply neutralM_now, ign_clock2. Qed.
@@ -41,7 +47,7 @@ Lemma nM_ctx_persist sc ps : nM (ctx_persist sc ps). Proof. apply neutralM_ctx_p
 Lemma nM_silent {A} (m : M A) : silent m -> nM m. Proof. apply neutralM_silent. Qed.
 Lemma nM_record_first_seen plan t : nM (record_first_seen plan t). Proof. apply neutralM_record_first_seen, ign_store2. Qed.
 Lemma nM_yield_state s : (match s with CheckingForUpdates _ => False | _ => True end) -> nM (yield_state s).
-Proof. intro H. apply nM_quiet. destruct s; try contradiction; exact I. Qed.
+Proof. intro H. unfold yield_state. apply nM_yieldq. destruct s; try contradiction; exact I. Qed.
 
 Ltac kp P H := eapply triple_bind with (R := fun _ => P); [apply (An P), H|intro].
 Tactic Notation "kpa" constr(P) constr(H) "as" ident(x) := eapply triple_bind with (R := fun _ => P); [apply (An P), H|intro x].
@@ -59,7 +65,7 @@ Lemma T_report (P : q2 -> Prop) mt :
   (forall q, P q -> notrep q) -> (match mt with MRequestsPerCheck _ _ | MFailureReason _ => False | _ => True end) ->
   T P (report mt) (fun _ => P).
 Proof.
-  intros HP Hm. unfold report. apply triple_emit. intros q Hq. exists q. split; [apply step2_metric; [apply HP, Hq|exact Hm]|exact Hq].
+  intros HP Hm. unfold report. temit. intros q Hq. exists q. split; [apply step2_metric; [apply HP, Hq|exact Hm]|exact Hq].
 Qed.
 
 (* ---------- do_omaha_request ---------- *)
@@ -106,7 +112,7 @@ Proof.
     apply andb_true_iff in Efo as [Hc Ha]. apply negb_true_iff in Ha. subst authentic.
     set (w := {| w_uri := uri; w_headers := headers_of (m_cfg m) b; w_body := body_of (m_cfg m) b; w_sum := summary_of b |}).
     eapply triple_bind with (R := fun _ q => q = forged_state c L A i f0 s r (match total_events w with O => true | S _ => false end)).
-    { apply triple_emit. intros q ->. eexists. split; [|reflexivity].
+    { temit. intros q ->. eexists. split; [|reflexivity].
       unfold step2, S2. cbn [f2_ cup2 in2_ same2 reason2 lu2 apps2]. fold c. fold w.
       destruct (total_events w) eqn:Et;
       destruct Hf0 as [-> | ->]; cbn [forged]; rewrite Hc; cbn [andb negb];
@@ -117,7 +123,7 @@ Proof.
     intro Hnil. unfold w. rewrite total_events_nil by exact Hnil. reflexivity.
   - (* not forged *)
     eapply triple_bind with (R := fun _ q => q = S2 c L A i F2None s r).
-    { apply triple_emit. intros q ->. eexists. split; [|reflexivity].
+    { temit. intros q ->. eexists. split; [|reflexivity].
       unfold step2, S2. cbn [f2_ cup2 in2_ same2 reason2 lu2 apps2]. rewrite Efo.
       destruct Hf0 as [-> | ->]; reflexivity. }
     intro. set (Q1 := fun q => q = S2 c L A i F2None s r).
@@ -129,7 +135,7 @@ Proof.
       eapply triple_bind with (R := fun m' q => Q1 q /\ same_but_ps m m').
       { destruct (oZ_eqb (ps_poll (m_ps m)) (parse_retry_after ra)).
         - apply triple_ret. intros q Hq. split; [exact Hq|apply same_but_ps_refl].
-        - kp Q1 (nM_quiet (AEvent (EvProtocol (m_ps (with_ps m (set_poll (m_ps m) (parse_retry_after ra)))))) I).
+        - kp Q1 (nM_yieldq (EvProtocol (m_ps (with_ps m (set_poll (m_ps m) (parse_retry_after ra))))) I).
           kp Q1 (nM_ctx_persist (m_sched (with_ps m (set_poll (m_ps m) (parse_retry_after ra)))) (m_ps (with_ps m (set_poll (m_ps m) (parse_retry_after ra))))).
           kp Q1 (nM_st_write SCommit).
           apply triple_ret. intros q Hq. split; [exact Hq|repeat split]. }
@@ -166,7 +172,7 @@ Proof.
   intros [m' res]. unfold req_post. cbn [fst snd].
   destruct res as [e|bd].
   - eapply triple_bind with (R := fun _ q => Q q /\ same_but_ps m m').
-    { apply triple_emit. intros q (Hs & [(-> & _ & _)|[(-> & _)|(noev & -> & _ & _)]]); (eexists; split; [|split; [reflexivity|exact Hs]]).
+    { temit. intros q (Hs & [(-> & _ & _)|[(-> & _)|(noev & -> & _ & _)]]); (eexists; split; [|split; [reflexivity|exact Hs]]).
       - reflexivity.
       - reflexivity.
       - cbn [forged_state]. destruct noev; reflexivity. }
@@ -216,14 +222,14 @@ Proof.
     destruct e; try discriminate.
     + kp P1 (nM_silent _ silent_pop_backoff).
       eapply triple_bind with (R := fun _ q => q = S2 (cupb m) L A I2Att F2None s false /\ same_but_ps m m1).
-      { apply triple_emit. intros q (Hs & [(-> & _)|[(-> & _)|(noev & _ & H & _)]]); try (inversion H; fail);
+      { temit. intros q (Hs & [(-> & _)|[(-> & _)|(noev & _ & H & _)]]); try (inversion H; fail);
           (eexists; split; [reflexivity|split; [reflexivity|exact Hs]]). }
       intro. intros q0 e0 q Hq (-> & Hs).
       assert (HT := IH (attempt + 1) m1 m0 (Hk1 Hs)).
       rewrite (keeps_cupb _ _ (same_keeps _ _ Hs)) in HT. exact (HT q0 e0 _ Hq eq_refl).
     + kp P1 (nM_silent _ silent_pop_backoff).
       eapply triple_bind with (R := fun _ q => q = S2 (cupb m) L A I2Att F2None s false /\ same_but_ps m m1).
-      { apply triple_emit. intros q (Hs & [(-> & _)|[(-> & _)|(noev & _ & H & _)]]); try (inversion H; fail);
+      { temit. intros q (Hs & [(-> & _)|[(-> & _)|(noev & _ & H & _)]]); try (inversion H; fail);
           (eexists; split; [reflexivity|split; [reflexivity|exact Hs]]). }
       intro. intros q0 e0 q Hq (-> & Hs).
       assert (HT := IH (attempt + 1) m1 m0 (Hk1 Hs)).
@@ -264,7 +270,7 @@ Lemma T_perform fuel p apps m L A s r0 :
 Proof.
   set (c := cupb m). unfold perform_update_check.
   eapply triple_bind with (R := fun _ q => q = S2 c L A I2Att F2None s false).
-  { apply triple_emit. intros q ->. eexists. split; reflexivity. }
+  { temit. intros q ->. eexists. split; reflexivity. }
   intro.
   eapply triple_bind with (R := fun m' q => q = S2 c L A I2Att F2None s false /\ keeps m m').
   { eapply triple_conseq; [apply (T_report_check_interval (p_source p) m (fun q => q = S2 c L A I2Att F2None s false))|auto|].
@@ -278,7 +284,7 @@ Proof.
   intros [[m1 attempts] res]. unfold att_post2. cbn [fst snd]. rewrite <- Hc0.
   eapply triple_bind with (R := fun _ q =>
      (q = S2 c L A I2Rep F2None s false \/ (q = S2 c L A I2Rep F2Att s false /\ res = inl RECupValidation)) /\ keeps m m1).
-  { apply triple_emit. intros q (Hk & [-> | (-> & Hr)]); (eexists; split; [reflexivity|split; [|exact Hk]]); [left|right]; auto. }
+  { temit. intros q (Hk & [-> | (-> & Hr)]); (eexists; split; [reflexivity|split; [|exact Hk]]); [left|right]; auto. }
   intro. apply T_pre_pure. intro Hk1.
   assert (Hc1 : c = cupb m1) by (symmetry; apply keeps_cupb; exact Hk1).
   set (QR := fun q => q = S2 c L A I2Rep F2None s false).
@@ -290,13 +296,13 @@ Proof.
   - (* a parsed document: from here on no forgery is pending *)
     eapply triple_conseq with (P' := QR) (Q' := perf_post m c L A s); [|intros q [H|[_ H]]; [exact H|discriminate]|auto].
     eapply triple_bind with (R := fun _ => QR).
-    { apply triple_emit. intros q ->. eexists. split; reflexivity. }
+    { temit. intros q ->. eexists. split; reflexivity. }
     intro.
     destruct (filter uc_ok (d_apps d)) as [|wu0 wur] eqn:Hwu.
     + kp QR (nM_yield_state NoUpdateAvailable I). apply triple_ret. intros q Hq. apply (Hdone m1); [apply same_but_ps_refl|exact Hq].
     + kpa QR (nM_silent _ silent_pop_plan) as pl.
       eapply triple_bind with (R := fun _ => QR).
-      { apply triple_emit. intros q ->. eexists. split; reflexivity. }
+      { temit. intros q ->. eexists. split; reflexivity. }
       intro. destruct pl as [plan|].
       2:{ kp QR (nM_yield_state InstallingUpdate I). kp QR (nM_yield_state InstallationError I).
           eapply triple_bind; [apply (T_report_event' c); exact Hc1|]. intro m2. apply triple_ret. intros q [Hq Hs]. apply (Hdone m2); assumption. }
@@ -309,9 +315,9 @@ Proof.
         kpa QR nM_now as t0. kp QR (nM_record_first_seen plan (wall t0)).
         kpa QR (nM_silent _ silent_pop_perform) as pa.
         eapply triple_bind with (R := fun _ => QR).
-        { apply triple_emit. intros q ->. eexists. split; reflexivity. }
+        { temit. intros q ->. eexists. split; reflexivity. }
         intro.
-        kp QR (neutralM_iterM step2 Inv2 (fun bits => yield_ (EvProgress bits)) (pa_progress pa) (fun bits => nM_quiet (AEvent (EvProgress bits)) I)).
+        kp QR (neutralM_iterM step2 Inv2 (fun bits => yield_ (EvProgress bits)) (pa_progress pa) (fun bits => nM_yieldq (EvProgress bits) I)).
         kpa QR nM_now as t1.
         eapply triple_bind with (R := fun _ => QR).
         { match goal with |- T _ (if ?cnd then _ else _) _ => destruct cnd end; [|apply triple_ret; auto].
@@ -329,7 +335,7 @@ Proof.
               rewrite Hn; [reflexivity|]. rewrite He. reflexivity.
             + cbn [iterM].
               eapply triple_bind with (R := fun _ q => QR q /\ same_but_ps m2 m3).
-              { unfold F, report. apply triple_emit.
+              { unfold F, report. temit.
                 intros q (Hs & [(-> & _)|[(-> & _)|(noev & -> & _ & _)]]); (eexists; split; [|split; [reflexivity|exact Hs]]); try reflexivity.
                 cbn [forged_state]. destruct noev; reflexivity. }
               intro. eapply triple_conseq with (P' := fun q => QR q /\ same_but_ps m2 m3) (Q' := fun _ q => QR q /\ same_but_ps m2 m3); [|auto|auto].
@@ -357,7 +363,7 @@ Proof.
            kpa QR (nM_silent _ silent_pop_reboot_needed) as rn.
            match goal with |- T _ (bind (emit ?a) _) _ => kp QR (nM_quiet a I) end.
            apply triple_ret. intros q Hq. apply (Hdone m4); assumption.
-        -- kp QR (neutralM_iterM step2 Inv2 (fun _ : unit => yield_ EvInstallerError) (repeat tt (Datatypes.S nerr)) (fun _ => nM_quiet (AEvent EvInstallerError) I)).
+        -- kp QR (neutralM_iterM step2 Inv2 (fun _ : unit => yield_ EvInstallerError) (repeat tt (Datatypes.S nerr)) (fun _ => nM_yieldq EvInstallerError I)).
            kp QR (nM_yield_state InstallationError I).
            apply triple_ret. intros q Hq. apply (Hdone m4); assumption.
       * eapply triple_bind; [apply (T_report_event' c); exact Hc1|]. intro m2. apply T_pre_pure. intro Hs2.
@@ -416,7 +422,7 @@ Proof.
           + kpa QN nM_now as n. apply triple_ret. intros q Hq. split; [exact Hq|exact Hc1]. }
         intros [m2 reason]. cbn [fst]. apply T_pre_pure. intro Hc2.
         eapply triple_bind with (R := fun _ => QN).
-        { apply triple_emit. intros q ->. eexists. split; reflexivity. }
+        { temit. intros q ->. eexists. split; reflexivity. }
         intro. apply triple_ret. intros q Hq. split; [exact Hq|]. cbn [fst]. exact Hc2.
       - kpa QN nM_now as n.
         eapply triple_bind with (R := fun _ => QN); [apply T_report; [exact HQn|exact I]|]. intro.
@@ -425,10 +431,10 @@ Proof.
         intro. apply triple_ret. intros q Hq. split; [exact Hq|]. cbn [fst]. exact Hc1. }
     intros [[m2 result] rb]. cbn [fst]. apply T_pre_pure. intro Hc2.
     eapply triple_bind with (R := fun _ => QN).
-    { apply triple_emit. intros q ->. eexists. split; reflexivity. }
-    intro. kp QN (nM_quiet (AEvent (EvProtocol (m_ps m2))) I).
+    { temit. intros q ->. eexists. split; reflexivity. }
+    intro. kp QN (nM_yieldq (EvProtocol (m_ps m2)) I).
     eapply triple_bind with (R := fun _ q => q = S2 c L A I2Out F2None false false).
-    { apply triple_emit. intros q ->. eexists. split; reflexivity. }
+    { temit. intros q ->. eexists. split; reflexivity. }
     intro. kp (fun q => q = S2 c L A I2Out F2None false false) (nM_persist_data m2).
     apply triple_ret. intros q ->. split; [exact Hc2|]. exists false. split; [reflexivity|discriminate].
   - (* a forged update-check response: validation error, failure reason Internal, nothing else changed *)
@@ -439,18 +445,18 @@ Proof.
     { eapply triple_bind with (R := fun mr q => q = S2 c L A I2Rep F2Att s false /\ mr = (m1, 4%N)); [apply triple_ret; auto|].
       intros mr. apply T_pre_pure. intros ->.
       eapply triple_bind with (R := fun _ q => q = S2 c L A I2Rep F2Att s true).
-      { apply triple_emit. intros q ->. eexists. split; reflexivity. }
+      { temit. intros q ->. eexists. split; reflexivity. }
       intro. apply triple_ret. auto. }
     intro fin. apply T_pre_pure. intros ->.
     assert (Hk2 : keeps m m2) by (destruct Hk1 as (H1 & H2 & H3); repeat split; assumption).
     eapply triple_bind with (R := fun _ q => q = S2 c L A I2Rep F2Att s true).
-    { apply triple_emit. intros q ->. eexists. split; [|reflexivity].
+    { temit. intros q ->. eexists. split; [|reflexivity].
       unfold step2. cbn [f2_ lu2 S2]. destruct HL as [-> | ->]; [reflexivity|].
       destruct Hk2 as (_ & _ & H3). rewrite <- H3.
       destruct (opct_eq_dec (s_last_update (m_sched m2)) (s_last_update (m_sched m2))); [reflexivity|congruence]. }
-    intro. kp (fun q => q = S2 c L A I2Rep F2Att s true) (nM_quiet (AEvent (EvProtocol (m_ps m2))) I).
+    intro. kp (fun q => q = S2 c L A I2Rep F2Att s true) (nM_yieldq (EvProtocol (m_ps m2)) I).
     eapply triple_bind with (R := fun _ q => q = S2 c L A I2Out F2None true false).
-    { apply triple_emit. intros q ->. eexists. split; reflexivity. }
+    { temit. intros q ->. eexists. split; reflexivity. }
     intro. kp (fun q => q = S2 c L A I2Out F2None true false) (nM_persist_data m2).
     apply triple_ret. intros q ->. split; [exact Hc1|]. exists true. split; [reflexivity|intros _; exact Hk2].
 Qed.
@@ -472,24 +478,26 @@ Proof. intros Hc (L & A & ->). exists L, A. rewrite Hc. reflexivity. Qed.
 
 Lemma W_quiet m a : quiet a -> T (W m) (emit a) (fun _ => W m).
 Proof. intro H. apply (An (W m)), nM_quiet, H. Qed.
+Lemma W_yieldq m ev : quiet (AEvent ev) -> T (W m) (yield_ ev) (fun _ => W m).
+Proof. intro H. apply (An (W m)), nM_yieldq, H. Qed.
 
 Lemma T_update_next m : T (Wp m) (update_next_update_time m) (fun r => W0 (fst r)).
 Proof.
   unfold update_next_update_time.
   eapply triple_bind; [apply (An (Wp m)), nM_silent, silent_pop_next_time|]. intro t.
   eapply triple_bind with (R := fun _ => W0 m).
-  { apply triple_emit. intros q (L & A & s & f & r & -> & Hf & Hs). eexists. split; [|exists L, A; reflexivity].
+  { temit. intros q (L & A & s & f & r & -> & Hf & Hs). eexists. split; [|exists L, A; reflexivity].
     unfold step2. cbn [same2 apps2 S2]. destruct s; [|reflexivity].
     destruct (Hs eq_refl) as [-> | ->]; [reflexivity|].
     destruct (apps_eq_dec (m_apps m) (m_apps m)); [reflexivity|congruence]. }
   intro.
   eapply triple_bind with (R := fun _ => W0 m).
-  { apply triple_emit. intros q (L & A & ->). eexists. split; [reflexivity|exists L, A; reflexivity]. }
+  { temit. intros q (L & A & ->). eexists. split; [reflexivity|exists L, A; reflexivity]. }
   intro. apply triple_ret. intros q Hq. exact Hq.
 Qed.
 
 Lemma T_timer m w : T (W0 m) (emit (ATimer w)) (fun _ => W0 m).
-Proof. apply triple_emit. intros q (L & A & ->). eexists. split; [destruct w; reflexivity|exists L, A; reflexivity]. Qed.
+Proof. temit. intros q (L & A & ->). eexists. split; [destruct w; reflexivity|exists L, A; reflexivity]. Qed.
 Lemma T_make_wait m t : T (W0 m) (make_wait t) (fun _ => W0 m).
 Proof.
   unfold make_wait. destruct (t_min t).
@@ -532,7 +540,7 @@ Proof.
     1:{ set (P2 := fun q => same_but_ps m m1 /\ q = S2 (cupb m) L A I2Out F2None false false).
         kpa P2 nM_now as n.
         eapply triple_bind with (R := fun _ => P2).
-        { apply triple_emit. intros q (Hs & ->). eexists. split; [reflexivity|split; [exact Hs|reflexivity]]. }
+        { temit. intros q (Hs & ->). eexists. split; [reflexivity|split; [exact Hs|reflexivity]]. }
         intro. match goal with |- T _ (bind (persist_data ?x) _) _ => kp P2 (nM_persist_data x) end.
         apply triple_ret. intros q (Hs & ->). split; [reflexivity|].
         unfold cupb. cbn [m_cup with_apps with_sched with_ps]. destruct Hs as (H & _). rewrite H. reflexivity. } }
@@ -548,10 +556,18 @@ Proof.
   kp P (nM_quiet (APolicy (QRebootAllowed src) (PBool b)) I). apply triple_ret. auto.
 Qed.
 
+Lemma T_handle_in_reboot id sc m : T (W0 m) (handle_in_reboot id sc) (fun _ => W0 m).
+Proof.
+  unfold handle_in_reboot. kp (W0 m) (nM_quiet (AReply id AlreadyRunning) I).
+  destruct sc; [apply T_ask_reboot|apply triple_ret; auto].
+Qed.
+
 Lemma T_reboot_loop fuel : forall src pending m, T (W0 m) (reboot_loop fuel src pending m) (fun m' => W0 m').
 Proof.
   induction fuel as [|f IH]; intros src pending m; cbn [reboot_loop]; [apply triple_halt|].
-  kpa (W0 m) (nM_silent _ (silent_pop_stim)) as st. destruct st as [i|sc].
+  kpa (W0 m) (nM_silent _ (silent_pop_queued)) as qd. destruct qd as [[id sc]|].
+  { eapply triple_bind; [apply T_handle_in_reboot|]. intros [|]; [apply triple_ret; auto|apply IH]. }
+  kpa (W0 m) (nM_silent _ (silent_pop_stim)) as st. destruct st as [i|sc|].
   - assert (Hping : T (W0 m)
               (m1 <- ping_omaha m;; mt <- update_next_update_time m1;;
                (let '(m2, t) := mt in roles <- make_wait t;; reboot_loop f src (remove_nth i pending ++ roles) m2)) (fun m' => W0 m')).
@@ -566,9 +582,9 @@ Proof.
       eapply triple_bind; [apply T_timer|]. intro. apply IH.
     + apply IH.
   - kpa (W0 m) (nM_silent _ silent_next_ctl) as id.
-    kp (W0 m) (nM_quiet (AReply id AlreadyRunning) I).
-    destruct sc; [|apply IH].
-    eapply triple_bind; [apply T_ask_reboot|]. intros [|]; [apply triple_ret; auto|apply IH].
+    kp (W0 m) (nM_quiet (ARequest id sc) I).
+    eapply triple_bind; [apply T_handle_in_reboot|]. intros [|]; [apply triple_ret; auto|apply IH].
+  - apply IH.
 Qed.
 
 Lemma T_wait_for_reboot fuel src m : T (W m) (wait_for_reboot fuel src m) (fun m' => W m').
@@ -578,7 +594,7 @@ Proof.
   eapply triple_bind with (R := fun m' => W m').
   { destruct ok; [apply triple_ret; auto|].
     eapply triple_bind with (R := fun _ => W m).
-    { apply triple_emit. intros q (L & A & s & -> & Hs). eexists. split; [reflexivity|exists L, A, s; auto]. }
+    { temit. intros q (L & A & s & -> & Hs). eexists. split; [reflexivity|exists L, A, s; auto]. }
     intro.
     eapply triple_bind with (R := fun r => W0 (fst r)); [eapply triple_conseq; [apply T_update_next|intros q Hq; apply W_Wp; exact Hq|auto]|].
     intros [m1 t]; cbn [fst].
@@ -586,7 +602,7 @@ Proof.
     eapply triple_conseq; [apply T_reboot_loop|auto|]. intros m' q Hq. apply W0_W. exact Hq. }
   intro m1. kpa (W m1) (nM_silent _ silent_pop_reboot) as okr.
   eapply triple_bind with (R := fun _ => W m1).
-  { apply triple_emit. intros q (L & A & s & -> & Hs). eexists. split; [reflexivity|exists L, A, s; auto]. }
+  { temit. intros q (L & A & s & -> & Hs). eexists. split; [reflexivity|exists L, A, s; auto]. }
   intro. apply triple_ret. auto.
 Qed.
 
@@ -605,11 +621,11 @@ Proof.
   eapply triple_bind with (R := fun r => W0 (fst r)); [eapply triple_conseq; [apply T_update_next|intros q Hq; apply W_Wp; exact Hq|auto]|].
   intros [m1 t]; cbn [fst].
   eapply triple_bind; [apply T_make_wait|]. intro roles.
-  kpa (W0 m1) (nM_silent _ (silent_do_outer_select roles)) as sel.
+  eapply triple_bind with (R := fun _ => W0 m1); [apply (T_do_outer_select step2 roles (W0 m1) ign_ctl2)|]. intro sel.
   kpa (W0 m1) (nM_silent _ silent_pop_allowed) as dec.
   set (L1 := Some (s_last_update (m_sched m1))). set (A1 := Some (m_apps m1)).
   eapply triple_bind with (R := fun _ q => q = S2 (cupb m1) L1 A1 I2Out F2None false false).
-  { apply triple_emit. intros q (L & A & ->). eexists. split; reflexivity. }
+  { temit. intros q (L & A & ->). eexists. split; reflexivity. }
   intro. set (Q1 := fun q => q = S2 (cupb m1) L1 A1 I2Out F2None false false).
   assert (HQ1W : forall q, Q1 q -> W m1 q).
   { intros q ->. exists L1, A1, false. split; [reflexivity|discriminate]. }
@@ -619,26 +635,33 @@ Proof.
     destruct sel as [[s id]|]; [apply (An Q1), nM_quiet; exact I|apply triple_ret; auto]. }
   assert (Hpos : forall p, T Q1
             (match sel with Some (_, id) => emit (AReply id Started) | None => ret tt end;;;
+             enter_check;;;
              r <- start_update_check fuel p m1;;
+             set_incheck false;;;
+             upg <- take_upgrade;;
              (let '(m0, rb) := r in
               m2 <- match rb with
-                    | RebootNeeded _ => yield_state WaitingForReboot;;; wait_for_reboot fuel match sel with Some (s, _) => s | None => ScheduledTask end m0
+                    | RebootNeeded _ => yield_state WaitingForReboot;;; wait_for_reboot fuel (if upg then OnDemand else match sel with Some (s, _) => s | None => ScheduledTask end) m0
                     | RebootNotNeeded => ret m0
                     end;;
               yield_state Idle;;; ret (m2, sr'))) (fun r => W (fst r))).
   { intro p. eapply triple_bind with (R := fun _ => Q1).
     { destruct sel as [[s id]|]; [apply (An Q1), nM_quiet; exact I|apply triple_ret; auto]. }
-    intro. eapply triple_bind; [apply (T_start fuel p m1 L1 A1 false false); right; reflexivity|].
+    intro. eapply triple_bind with (R := fun _ => Q1); [apply (T_enter_check step2 Q1 ign_ctl2)|]. intro.
+    eapply triple_bind; [apply (T_start fuel p m1 L1 A1 false false); right; reflexivity|].
     intros [m2 rb]. unfold start_post. cbn [fst].
+    set (P2 := fun q : q2 => cupb m2 = cupb m1 /\ (exists s' : bool, q = S2 (cupb m1) L1 A1 I2Out F2None s' false /\ (s' = true -> keeps m1 m2))).
+    kp P2 (nM_silent _ (silent_set_incheck false)).
+    kpa P2 (nM_silent _ silent_take_upgrade) as upg.
     assert (HW2 : forall q, (cupb m2 = cupb m1 /\ exists s', q = S2 (cupb m1) L1 A1 I2Out F2None s' false /\ (s' = true -> keeps m1 m2)) -> W m2 q).
     { intros q (Hc & s' & -> & Hk). exists L1, A1, s'. rewrite Hc. split; [reflexivity|].
       intro Hs. right. unfold A1. destruct (Hk Hs) as (_ & Ha & _). rewrite Ha. reflexivity. }
     eapply triple_bind with (R := fun m' => W m').
     { destruct rb as [plan|]; [|apply triple_ret; intros q Hq; apply HW2, Hq].
       eapply triple_bind with (R := fun _ => W m2).
-      { eapply triple_conseq; [apply (W_quiet m2 (AEvent (EvState WaitingForReboot)) I)|intros q Hq; apply HW2, Hq|auto]. }
+      { eapply triple_conseq; [apply (W_yieldq m2 (EvState WaitingForReboot) I)|intros q Hq; apply HW2, Hq|auto]. }
       intro. apply T_wait_for_reboot. }
-    intro m3. eapply triple_bind; [apply (W_quiet m3 (AEvent (EvState Idle)) I)|]. intro. apply triple_ret. auto. }
+    intro m3. eapply triple_bind; [apply (W_yieldq m3 (EvState Idle) I)|]. intro. apply triple_ret. auto. }
   destruct dec; [apply Hpos|apply Hpos|exact Hneg|exact Hneg|exact Hneg].
 Qed.
 
@@ -664,11 +687,11 @@ Proof.
   assert (Hc : init2 cup = S2 (cupb m) None None I2Out F2None false false).
   { unfold init2, S2, cupb, m, build. destruct (ctx_load (pend (e_store e))). reflexivity. }
   destruct ep.
-  - destruct (T_run (Datatypes.S (length (e_stim e))) (4 + length (e_stim e)) m (init2 cup) e (init2 cup)) as (q' & Hq' & _).
+  - destruct (T_run (Datatypes.S (length (e_stim e) + length (c_inject (e_cs e)))) (4 + length (e_stim e) + length (c_inject (e_cs e))) m (init2 cup) e (init2 cup)) as (q' & Hq' & _).
     + unfold mst. rewrite Ht. reflexivity.
     + rewrite Hc. exists None, None, false. split; [reflexivity|discriminate].
     + destruct (run _ _ m e) as [r e'] eqn:E. cbn [snd] in Hq'. unfold mst in Hq'. rewrite Hq'. reflexivity.
-  - assert (HT : T (fun q => q = S2 (cupb m) None None I2Out F2None false false) (oneshot (4 + length (e_stim e)) m) (fun _ _ => True)).
+  - assert (HT : T (fun q => q = S2 (cupb m) None None I2Out F2None false false) (oneshot (4 + length (e_stim e) + length (c_inject (e_cs e))) m) (fun _ _ => True)).
     { unfold oneshot. eapply triple_bind; [apply (T_start _ params_default m None None false false); left; reflexivity|].
       intro. apply triple_ret. auto. }
     destruct (HT (init2 cup) e (init2 cup)) as (q' & Hq' & _).
